@@ -41,92 +41,79 @@ def string_table(arms, owner, T):
     return tbl, default
 
 
-def _walk(node, f):
-    if isinstance(node, tuple):
-        f(node)
-        for x in node:
-            _walk(x, f)
-    elif isinstance(node, list):
-        for x in node:
-            _walk(x, f)
+def split_fns(src):
+    """[(name, body text)] of every `fn` of the file (methods included), by brace matching"""
+    out = []
+    for m in re.finditer(r"\bfn\s+([A-Za-z_][A-Za-z0-9_]*)\s*(<[^>(]*>)?\s*\(", src):
+        try:
+            k = matching_brace(src, m.end() - 1, "(", ")")
+            i = src.index("{", k)
+            semi = src.find(";", k, i)
+            if semi >= 0:               # a declaration without body (trait method)
+                continue
+            out.append((m.group(1), src[i + 1:matching_brace(src, i)]))
+        except (TranslateError, ValueError):
+            continue
+    return out
 
 
-def _string_match(fn, owner, T):
-    """the unique `match <expr> { "lit" => T![..], ..., _ => default }` of a function (t_lexer AST);
-    returns ([(lit, Variant)], default arm body)"""
-    found = []
-
-    def visit(n):
-        if n and n[0] == "match" and any(p[0] == "str" for pats, _g, _b, _l in n[2] for p in pats):
-            found.append(n)
-    _walk(fn["body"], visit)
-    if len(found) != 1:
-        raise TranslateError("%s: expected exactly one match on string literals, found %d" % (owner, len(found)))
-    arms = found[0][2]
-    if arms[-1][0] != [("wild",)] or arms[-1][1] is not None:
-        raise TranslateError("%s: the last arm of the string match must be `_ =>`" % owner)
-    tbl, seen = [], set()
-    for pats, guard, body, line in arms[:-1]:
-        st = body[1]
-        if guard is not None or len(pats) != 1 or pats[0][0] != "str" or len(st) != 1 or st[0][0] != "expr" \
-                or st[0][1][0] != "tmac":
-            raise TranslateError("%s:%d: unsupported arm (want \"lit\" => T![..])" % (owner, line))
-        key = st[0][1][1]
-        if key not in T:
-            raise TranslateError("%s: T![%s] unknown" % (owner, key))
-        if pats[0][1] in seen:
-            raise TranslateError("%s: duplicate key %r" % (owner, pats[0][1]))
-        seen.add(pats[0][1])
-        tbl.append((pats[0][1], T[key]))
-    return tbl, arms[-1][2][1]
+def string_matches(body):
+    """every `match <scrutinee> { "lit" => .. }` of a function body: [(arms text)]"""
+    out = []
+    for m in re.finditer(r"\bmatch\s+[^{;]+?\{\s*(?=\")", body):
+        i = body.index("{", m.start())
+        out.append(body[i + 1:matching_brace(body, i)])
+    return out
 
 
 def parse(repo):
-    """robust against renaming of locals: works on the AST of tools/translate/t_lexer.py"""
-    import t_lexer
+    """Tolerant, function by function: only the functions that CONTAIN the tables must have the expected shape
+    (a `match` on string literals with `T![..]` results and the expected default arm); the rest of the file is
+    not looked at, and neither function names nor the names of locals matter."""
     tok = t_tokens.parse(repo)
     T = tok["T"]
     src = cut_tests(strip_comments(read(repo, "crates/syntax/src/lexer.rs")))
-    fns, _structs = t_lexer.Parser(t_lexer.tokenize(src)).items()
-    by = {f["name"]: f for f in fns}
-    for need in ("identifier", "bangoperator", "preprocessor", "next_token"):
-        if need not in by:
-            raise TranslateError("fn %s not found" % need)
-    kw, d1 = _string_match(by["identifier"], "identifier", T)
-    if not (len(d1) == 1 and d1[0][0] == "expr" and d1[0][1][0] == "path" and d1[0][1][1] == ["TokenKind", "Id"]):
-        raise TranslateError("identifier: default arm must be TokenKind::Id")
-    bang, d2 = _string_match(by["bangoperator"], "bangoperator", T)
-    ok2 = (len(d2) == 1 and d2[0][0] == "expr" and d2[0][1][0] == "method" and d2[0][1][2] == "error"
-           and d2[0][1][4] == [("str", "Unknown operator")])
-    if not ok2:
-        raise TranslateError("bangoperator: unexpected default arm")
-    pp, d3 = _string_match(by["preprocessor"], "preprocessor", T)
-    ok3 = (len(d3) == 2 and d3[0][0] == "expr" and d3[0][1][0] == "method" and d3[0][1][2] == "jump"
-           and d3[1][0] == "expr" and d3[1][1][0] == "tmac" and d3[1][1][1] == "#")
-    if not ok3:
-        raise TranslateError("preprocessor: unexpected default arm (want `{ self.s.jump(..); T![#] }`)")
-    # single-char punctuation arms of next_token:  Some('x') => T![..]   (no guard)
-    punct = []
-
-    def visit(n):
-        if n and n[0] == "match":
-            for pats, guard, body, line in n[2]:
-                st = body[1]
-                if guard is None and len(pats) == 1 and pats[0][0] == "some" and pats[0][1][0] == "char" \
-                        and len(st) == 1 and st[0][0] == "expr" and st[0][1][0] == "tmac":
-                    key = st[0][1][1]
-                    if key not in T:
-                        raise TranslateError("next_token: T![%s] unknown" % key)
-                    punct.append((pats[0][1][1], T[key]))
-    _walk(by["next_token"]["body"], visit)
-    msgs = set()
-
-    def visit_err(n):
-        if n and n[0] == "method" and n[2] == "error" and len(n[4]) == 1 and n[4][0][0] == "str":
-            msgs.add(n[4][0][1])
-    for f in fns:
-        _walk(f["body"], visit_err)
-    return {"kw": kw, "bang": bang, "pp": pp, "punct": punct, "msgs": sorted(msgs), "tok": tok}
+    found = {"kw": [], "bang": [], "pp": []}
+    directive_kinds = {"Ifdef", "Ifndef", "Else", "Endif", "Define"}
+    for name, body in split_fns(src):
+        for arms in string_matches(body):
+            try:
+                tbl, default = string_table(arms, name, T)
+            except TranslateError:
+                continue
+            if not tbl:
+                continue
+            kinds = {v for _k, v in tbl}
+            if kinds <= directive_kinds:
+                found["pp"].append((name, tbl, default))
+            elif all(v.startswith("X") for v in kinds):
+                found["bang"].append((name, tbl, default))
+            else:
+                found["kw"].append((name, tbl, default))
+    for what, lst in found.items():
+        if len(lst) != 1:
+            raise TranslateError("lexer.rs: expected exactly one %s table (match on string literals), found %d"
+                                 % ({"kw": "keyword", "bang": "bang-operator", "pp": "directive"}[what], len(lst)))
+    (n1, kw, d1), (n2, bang, d2), (n3, pp, d3) = found["kw"][0], found["bang"][0], found["pp"][0]
+    if not re.fullmatch(r"_ =>\s*TokenKind::Id\s*,?", d1):
+        raise TranslateError("%s: default arm of the keyword table must be TokenKind::Id, got %r" % (n1, d1))
+    if not re.fullmatch(r'_ =>\s*self\.error\("Unknown operator"\)\s*,?', d2):
+        raise TranslateError("%s: unexpected default arm of the operator table %r" % (n2, d2))
+    if not re.fullmatch(r"_ =>\s*\{\s*self\.s\.jump\([A-Za-z_][A-Za-z0-9_]*\);\s*T!\[#\]\s*\}\s*,?", d3):
+        raise TranslateError("%s: unexpected default arm of the directive table %r" % (n3, d3))
+    # single-char punctuation arms (no guard):  Some('x') => T![..],
+    punct, seen = [], set()
+    for m in re.finditer(r"Some\('(\\.|[^\\'])'\)\s*=>\s*T!\[(.+?)\]\s*,", src):
+        ch = unescape_rust_str(m.group(1))
+        key = m.group(2).strip()
+        if key not in T:
+            raise TranslateError("punctuation arm: T![%s] unknown" % key)
+        if ch in seen:
+            raise TranslateError("punctuation arm for %r occurs twice" % ch)
+        seen.add(ch)
+        punct.append((ch, T[key]))
+    msgs = sorted(set(unescape_rust_str(x) for x in re.findall(r'self\.error\(\s*"((?:[^"\\]|\\.)*)"\s*\)', src)))
+    return {"kw": kw, "bang": bang, "pp": pp, "punct": punct, "msgs": msgs, "tok": tok}
 
 
 def translate(repo):
